@@ -34,9 +34,9 @@ func runOne(seed uint64, p Params) (*World, *Truth, []byte, *CaptureSpec) {
 // never loses a byte at the tap, and the same tape gives the same capture.
 func TestGeneratorSelfCheck(t *testing.T) {
 	var faults [NumFaults]int
-	for _, p := range []Params{{}, {Omission: true}, {Wide: true}} {
+	for _, p := range []Params{{}, {Omission: true}, {Wide: true}, {Snaplen: true}, {NoSYN: true}, {Large: true}} {
 		holes := 0
-		for seed := uint64(1); seed <= 3000; seed++ {
+		for seed := uint64(1); seed <= 2000; seed++ {
 			w, tr, b, _ := runOne(seed, p)
 			if w.Err != "" {
 				t.Fatalf("params %+v seed %d: %s", p, seed, w.Err)
@@ -48,10 +48,10 @@ func TestGeneratorSelfCheck(t *testing.T) {
 				t.Fatalf("seed %d: %d of %d connections captured", seed, len(tr.Conns), len(w.Conns))
 			}
 			holes += tr.Holes
-			if !p.Omission && tr.Holes != 0 {
+			if !w.MayLoseBytes() && tr.Holes != 0 {
 				t.Fatalf("params %+v seed %d: capture lacks stream bytes without tap omission", p, seed)
 			}
-			if !p.Wide {
+			if !p.Wide && !p.NoSYN {
 				for _, c := range tr.Conns {
 					if c.FirstSide != 0 || !c.FirstIsSYN {
 						t.Fatalf("seed %d: first captured packet of a connection is not the client's SYN", seed)
@@ -65,8 +65,8 @@ func TestGeneratorSelfCheck(t *testing.T) {
 				}
 			}
 		}
-		if p.Omission && holes == 0 {
-			t.Fatalf("omission never produced a hole")
+		if (p.Omission || p.Snaplen || p.Large) && holes == 0 {
+			t.Fatalf("params %+v never produced a hole", p)
 		}
 	}
 	for i, f := range faults {
